@@ -14,6 +14,7 @@ CONSTANTS
  CfgIds = {2}
  UseBlobs = {"z", "o"}
  InPlace = FALSE
+ Boot = TRUE
  Modes = {"lazy"}
  Dump = "none"
 INVARIANT InvStateOK
